@@ -71,8 +71,8 @@ mutant in a scratch copy (diff and violation line recorded under `mutants/<id>/`
 | C20 | renormalising-branch parents with z<0 and y>=0; cone about the mirrored parent on the y<0 letters | copysign-from-z and signed-hypotenuse variants of rotate() |
 | C06 | exception aborts (user action throwing at its n-th call, in-kernel throw, invalid event id) + `reset_state()`, StepperResult sequence, looping primary in the field configs, slots = 1, g3 geometry, real SimpleCalo/diagnostics tallies | killed slots surviving reset, insert-before-validate, `num_generated` not reset, looping counter not reset, hoisted post-step action lookup |
 | C07 | StatusChecker, action-sorted track order and field+MSC variants, rotated stream assignments for T>=4, per-action atomic budgets, rendezvous at begin-run hooks (TSan lost races on the loaded machine) | static scratch in `count_tracks_per_action`, static field params in the along-step, stream-dependent reseed; new finding (repaired): StatusChecker begin-run race |
-| C08 | see 9.2 (budget exhaustion no longer folded into one signature, parity of the start/step lattice, RZ map value oracle, sub-resolution steps) | see `mutants/C08/` |
-| C14 | `linear_loss_limit` 0 / 1e-300 and tiny steps, MSC geo->true round trip and monotonicity, options lattice for `range_to_step`, distinct tables per material/particle + positron | see `mutants/C14/` |
+| C08 | the returned boundary flag is compared with the geometry state after every call (and a failed / unmapped state is a verdict, not a harness error); trial-budget exhaustion is attributed from a replay of the recorded stepper applications and keeps the oracle name as sub-signature; option sets `max_nsteps` 1/10 and `bump_distance != minimum_step`; steps below coordinate resolution; `operator()()` without a limit; B = 0; RZ map values against long-double re-interpolation incl. a map smaller than the world; both colours of the start/step checkerboard | `accurate_advance` end step, momentum sign in the short-step branch, dropped `chord.length == 0`, bump by `minimum_substep()`, landing threshold from `bump_distance()`, RZ map index/validity slips; new findings: `one_good_step` running out of trials, unchecked sagitta after an exhausted chord search, `operator()()` returning inf/NaN, wrong volume after a crossing that follows a multi-turn RK4 substep |
+| C14 | `linear_loss_limit` 0 / 1e-300 and steps down to range x 2^-53, MSC geo->true against the documented inverse + round trip + monotonicity, `msc_mfp` value, options lattice for `range_to_step`, distinct tables per (material, particle) + positron | 'limit 0 means disabled', sign/exponent slips in `MscStepFromGeo`, mfp divided by E, `rho * min_eprime_over_e`, particle ignored in `UrbanMscData::at`; new finding (repaired): negative mean loss for steps below eps x range |
 | C09 | GenPrism faces with coincident leading vertices, second tolerance (abs != rel), self-boundary units, 4-universe hierarchy placed twice, mirror tilts | rel/abs swap in SoftSurfaceEqual, background only for >2 volumes, depth from the last daughter; new findings: GenPrism (known), soft_eq_distance (repaired) |
 | C10 | De Morgan on aliased trees from `replace_and_simplify`, postfix chains up to and beyond `LogicStack::max_stack_depth()` through `OrangeParams` | un-dealiased `std::get`, `calc_max_depth` off by one, `apply_and` mask |
 | C12 | simplifier offsets 1e-7..2^-11 with a 2^-24 ring, `make_permutation(Axis, QuarterTurn)`, on-surface state (at most one root, its value), involute `tol_point` and attribution of missed crossings | unsquared thresholds, permutation sense, `on` ignored by Plane / SimpleQuadric, involute bracket step |
